@@ -23,8 +23,16 @@ let cmd_bw (sw : bw_switches) goal prog depth : string =
     | _ -> failwith "bad goal" in
   string_of_bw (unwrap r)
 
+(* the string wrappers are pure functions of (prog, depth, goal): the model
+   answers a sequence of questions independently *)
+let cmd_bwpyseq prog depth goals =
+  String.concat "," (List.map (fun g ->
+      try cmd_bw bw_faithful g prog depth with Model_panic -> "PANIC")
+      (String.split_on_char ',' goals))
+
 let dispatch (fields : string list) : string option =
   match fields with
+  | ["bwpyseq"; prog; depth; goals] -> Some (cmd_bwpyseq prog depth goals)
   | ["bw"; goal; prog; depth] -> Some (cmd_bw bw_faithful goal prog depth)
   | ["bw_nodrop"; goal; prog; depth] ->
     Some (cmd_bw { sw_nodrop = true; sw_fullparams = false } goal prog depth)
